@@ -494,7 +494,8 @@ static int http_request_parse_single_header(request_st * const restrict r, const
                 : "HTTP/2 with Transfer-Encoding is invalid -> 400");
         }
 
-        if (!buffer_eq_icase_ss(v, vlen, CONST_STR_LEN("chunked"))) {
+        if (!buffer_eq_icase_ss(v, vlen, CONST_STR_LEN("chunked"))
+            || -1 == r->reqbody_length) { /*(repeated: "chunked, chunked")*/
             /* Transfer-Encoding might contain additional encodings,
              * which are not currently supported by lighttpd */
             return http_request_header_line_invalid(r, 501, NULL); /* Not Implemented */
